@@ -2,6 +2,7 @@ package main
 
 import (
 	"math/rand"
+	"strconv"
 	"strings"
 )
 
@@ -176,20 +177,33 @@ func scalarOnly(r Val) bool {
 	return true
 }
 
-// sortable: scalar elements whose string forms tie only when the elements are identical
-// (the documents do not promise a stable sort, and 1 vs "1" would expose the tie order).
-func sortable(r Val) bool {
-	if !scalarOnly(r) {
-		return false
-	}
+// sortable: scalar elements only (how a nested list is rendered for comparison is not
+// documented). Elements with equal string forms (2 and "2") are in the domain: sort() is
+// documented as Node.js-style string comparison and Array.prototype.sort is stable.
+func sortable(r Val) bool { return scalarOnly(r) }
+
+// tieClass: none | same (only identical duplicates) | cross (different values, same string form)
+func tieClass(r Val) string {
+	c := "none"
 	for i := range r.L {
-		for j := range r.L {
-			if i != j && ToStr(r.L[i]) == ToStr(r.L[j]) && !StrictEq(r.L[i], r.L[j]) {
-				return false
+		for j := i + 1; j < len(r.L); j++ {
+			if ToStr(r.L[i]) == ToStr(r.L[j]) {
+				if !StrictEq(r.L[i], r.L[j]) {
+					return "cross"
+				}
+				c = "same"
 			}
 		}
 	}
-	return true
+	return c
+}
+
+func sizeClass(n int) string {
+	// Go's sort.Slice is an insertion sort up to 12 elements; keep the two regimes apart
+	if n > 12 {
+		return "gt12"
+	}
+	return "le12"
 }
 
 func (g *gen) sort(r Val) {
@@ -197,7 +211,7 @@ func (g *gen) sort(r Val) {
 		return
 	}
 	s := ArrSort(r.L)
-	g.arr(r, "sort", "array.sort len="+lenClass(len(r.L)), nil, lst(s), cloneAll(s))
+	g.arr(r, "sort", "array.sort size="+sizeClass(len(r.L))+" ties="+tieClass(r)+" len="+lenClass(len(r.L)), nil, lst(s), cloneAll(s))
 }
 
 func (g *gen) join(r Val, sep *string) {
@@ -358,6 +372,40 @@ var sortReceivers = []Val{
 	List(Str("b"), Int(10), Str("a"), Int(2), Str("B"), Str("")),
 	List(Str("é"), Str("e"), Str("z"), Str("你"), Str("f")),
 	List(Int(2), Int(2), Int(1), Int(1)),
+	// equal string forms, distinguishable values: stability is observable through json_encode
+	List(Int(2), Int(1), Str("1"), Str("2"), Int(1)),
+	List(Str("10"), Int(10), Str("b"), Int(9), Str("9"), Str("a")),
+	List(Int(1), Str("1")), List(Str("1"), Int(1)),
+	List(Int(1), Str("1"), Int(1), Str("1")), List(Str("1"), Int(1), Str("1"), Int(1)),
+	List(Str("2"), Int(2), Str("1"), Int(1), Int(1), Str("1")),
+	List(Int(9), Str("0"), Int(5), Int(0), Str("9"), Str("5")),
+	List(Str("a"), Int(5), Str("m"), Str("5"), Str("z"), Int(5)),
+	List(Str("-1"), Int(-1), Int(0), Str("0"), Str("-1")),
+	List(Int(3), Str("3"), Int(2), Str("2"), Int(1), Str("1"), Str("3"), Int(3), Str("2"), Int(2), Str("1"), Int(1)),
+}
+
+// tieList: n elements drawn from ints 0..k-1 and their decimal strings.
+func tieList(rnd *rand.Rand, n, k int) Val {
+	l := make([]Val, n)
+	for i := range l {
+		v := rnd.Intn(k)
+		if rnd.Intn(2) == 0 {
+			l[i] = Int(v)
+		} else {
+			l[i] = Str(strconv.Itoa(v))
+		}
+	}
+	return List(l...)
+}
+
+// longTieReceivers: lengths beyond 12 (Go's sort.Slice changes algorithm there), fixed.
+func longTieReceivers() []Val {
+	rnd := rand.New(rand.NewSource(15))
+	var out []Val
+	for _, n := range []int{13, 14, 16, 20, 28, 40, 64} {
+		out = append(out, tieList(rnd, n, 3), tieList(rnd, n, 6))
+	}
+	return out
 }
 
 var seps = []*string{nil, sp(""), sp(","), sp("-"), sp(", "), sp(" é ")}
@@ -438,6 +486,9 @@ func (g *gen) enumerateArrays(full bool) {
 		}
 		g.callbacks(r)
 	}
+	for _, r := range longTieReceivers() {
+		g.sort(r)
+	}
 	for _, r := range sortReceivers {
 		g.sort(r)
 		g.reverse(r)
@@ -492,6 +543,12 @@ func randItems(rnd *rand.Rand) []Val {
 // seededArrays: receivers of length 0..6 beyond the enumerated ones, every method once or
 // a few times per receiver with arguments drawn around the receiver's own length.
 func (g *gen) seededArrays(rnd *rand.Rand, receivers int) {
+	for k := 0; k < receivers; k++ {
+		g.sort(tieList(rnd, rnd.Intn(13), 1+rnd.Intn(4)))
+		if k%4 == 0 {
+			g.sort(tieList(rnd, 13+rnd.Intn(30), 2+rnd.Intn(5)))
+		}
+	}
 	for k := 0; k < receivers; k++ {
 		r := randList(rnd, 6)
 		n := len(r.L)
